@@ -90,13 +90,199 @@ pub open spec fn hdr_is_empty(h: Header) -> bool {
     h.alg is None && h.crit@.len() == 0 && h.content_type is None && h.key_id@.len() == 0 && h.iv@.len() == 0
     && h.partial_iv@.len() == 0 && h.counter_signatures@.len() == 0 && h.rest@.len() == 0
 }
-/// the byte string a protected header contributes (None: not serialisable)
-pub open spec fn slot_ok(p: ProtectedHeader, d: Seq<u8>) -> bool {
+// ---- what a header encodes to (data-model value), as a function of the in-memory value
+pub open spec fn opt_entry(present: bool, k: int, v: CV) -> Seq<(CV, CV)> {
+    if present { seq![(CV::Int(k), v)] } else { Seq::<(CV, CV)>::empty() }
+}
+pub open spec fn typed_present(h: Header, l: Label) -> bool {
+    (l == Label::Int(1) && h.alg is Some) || (l == Label::Int(2) && h.crit@.len() > 0) || (l == Label::Int(3) && h.content_type is Some)
+    || (l == Label::Int(4) && h.key_id@.len() > 0) || (l == Label::Int(5) && h.iv@.len() > 0) || (l == Label::Int(6) && h.partial_iv@.len() > 0)
+    || (l == Label::Int(7) && h.counter_signatures@.len() > 0)
+}
+pub open spec fn rest_labels_ok(h: Header) -> bool {
+    (forall |i: int, j: int| 0 <= i < j < h.rest@.len() ==> (#[trigger] h.rest@[i]).0 != (#[trigger] h.rest@[j]).0)
+    && (forall |i: int| 0 <= i < h.rest@.len() ==> !typed_present(h, (#[trigger] h.rest@[i]).0))
+}
+pub open spec fn crit_cv(c: Seq<RegisteredLabel<iana::HeaderParameter>>) -> CV { CV::Array(Seq::new(c.len(), |i: int| reg_cv(c[i]))) }
+#[verifier::opaque]
+pub open spec fn rest_entries(r: Seq<(Label, Value)>) -> Seq<(CV, CV)> { Seq::new(r.len(), |i: int| (label_cv(r[i].0), vv(r[i].1))) }
+/// what the k-th typed field (k in 1..=7) encodes to
+pub open spec fn hdr_typed_val(h: Header, k: int) -> CV
+    decreases h, 1nat
+{
+    if k == 1 { regp_cv(h.alg->0) }
+    else if k == 2 { crit_cv(h.crit@) }
+    else if k == 3 { reg_cv(h.content_type->0) }
+    else if k == 4 { CV::Bytes(h.key_id@) }
+    else if k == 5 { CV::Bytes(h.iv@) }
+    else if k == 6 { CV::Bytes(h.partial_iv@) }
+    else if k == 7 { csigs_cv(h) }
+    else { CV::Null }
+}
+/// the k-th typed entry (k in 1..=7) if populated
+pub open spec fn hdr_typed_entry(h: Header, k: int) -> Seq<(CV, CV)>
+    decreases h, 2nat
+{ opt_entry(typed_present(h, Label::Int(k as i64)), k, hdr_typed_val(h, k)) }
+/// the entries of the first k (0..=7) typed fields, in label order
+#[verifier::opaque]
+pub open spec fn hdr_typed_prefix(h: Header, k: int) -> Seq<(CV, CV)>
+    decreases h, 3nat, k
+{
+    if k <= 0 { Seq::<(CV, CV)>::empty() } else { hdr_typed_prefix(h, k - 1) + hdr_typed_entry(h, k) }
+}
+pub open spec fn hdr_typed_entries(h: Header) -> Seq<(CV, CV)>
+    decreases h, 4nat
+{ hdr_typed_prefix(h, 7) }
+pub open spec fn csigs_cv(h: Header) -> CV
+    decreases h, 0nat
+{
+    if h.counter_signatures@.len() == 1 { sig_cv(h.counter_signatures@[0]) }
+    else { CV::Array(Seq::new(h.counter_signatures@.len(), |i: int| if 0 <= i < h.counter_signatures@.len() { sig_cv(h.counter_signatures@[i]) } else { CV::Null })) }
+}
+pub open spec fn hdr_cv(h: Header) -> CV
+    decreases h, 5nat
+{ CV::Map(hdr_typed_entries(h) + rest_entries(h.rest@)) }
+pub open spec fn sig_cv(s: CoseSignature) -> CV
+    decreases s
+{ CV::Array(seq![CV::Bytes(prot_slot(s.protected)), hdr_cv(s.unprotected), CV::Bytes(s.signature@)]) }
+/// the byte string a protected header contributes to its carrier and to the to-be-signed/MACed/AAD structures
+pub open spec fn prot_slot(p: ProtectedHeader) -> Seq<u8>
+    decreases p
+{
     match p.original_data {
-        Some(o) => d == o@,
-        None => if hdr_is_empty(p.header) { d.len() == 0 } else { exists |v: Value| #[trigger] p.enc_rel(Ok::<Value, CoseError>(v)) && d == crate::vprelude::enc(vv(v)) },
+        Some(o) => o@,
+        None => if hdr_is_empty(p.header) { Seq::<u8>::empty() } else { crate::vprelude::enc(hdr_cv(p.header)) },
     }
-}»
+}
+pub open spec fn opt_label(present: bool, k: int) -> Seq<Option<Label>> {
+    if present { seq![Some(Label::Int(k as i64))] } else { Seq::<Option<Label>>::empty() }
+}
+pub open spec fn hdr_typed_label(h: Header, k: int) -> Seq<Option<Label>> {
+    opt_label(typed_present(h, Label::Int(k as i64)), k)
+}
+/// labels of the first k typed entries
+#[verifier::opaque]
+pub open spec fn hdr_typed_labels(h: Header, k: int) -> Seq<Option<Label>>
+    decreases k
+{
+    if k <= 0 { Seq::<Option<Label>>::empty() } else { hdr_typed_labels(h, k - 1) + hdr_typed_label(h, k) }
+}
+#[verifier::opaque]
+pub open spec fn labels_of(m: Seq<(Value, Value)>) -> Seq<Option<Label>> { Seq::new(m.len(), |i: int| label_of(m[i].0)) }
+pub proof fn lemma_typed_labels_k(h: Header, x: Label, k: int)
+    requires 0 <= k <= 7,
+    ensures hdr_typed_labels(h, k).contains(Some(x)) <==> (typed_present(h, x) && (x matches Label::Int(n) && 1 <= n <= k)),
+    decreases k
+{
+    reveal_with_fuel(hdr_typed_labels, 1);
+    if k > 0 {
+        lemma_typed_labels_k(h, x, k - 1);
+        let p = hdr_typed_labels(h, k - 1);
+        let e = hdr_typed_label(h, k);
+        let l = hdr_typed_labels(h, k);
+        assert(l == p + e);
+        if l.contains(Some(x)) {
+            let i = choose |i: int| 0 <= i < l.len() && l[i] == Some(x);
+            if i < p.len() { assert(p[i] == Some(x)); assert(p.contains(Some(x))); } else { assert(e[i - p.len()] == Some(x)); }
+        }
+        if p.contains(Some(x)) { let i = choose |i: int| 0 <= i < p.len() && p[i] == Some(x); assert(l[i] == Some(x)); }
+        if typed_present(h, x) && x == Label::Int(k as i64) { assert(l[p.len() as int] == Some(x)); }
+    }
+}
+pub proof fn lemma_typed_labels(h: Header, x: Label)
+    ensures hdr_typed_labels(h, 7).contains(Some(x)) <==> typed_present(h, x),
+{ lemma_typed_labels_k(h, x, 7); }
+pub proof fn lemma_hdr_step(h: Header, k: int, old: Seq<(Value, Value)>, key: Value, val: Value)
+    requires
+        1 <= k <= 7,
+        vv_pairs(old) == hdr_typed_prefix(h, k - 1),
+        labels_of(old) == hdr_typed_labels(h, k - 1),
+        typed_present(h, Label::Int(k as i64)),
+        vv(key) == CV::Int(k), label_of(key) == Some(Label::Int(k as i64)),
+        vv(val) == hdr_typed_val(h, k),
+    ensures
+        vv_pairs(old.push((key, val))) == hdr_typed_prefix(h, k),
+        labels_of(old.push((key, val))) == hdr_typed_labels(h, k),
+{
+    reveal_with_fuel(hdr_typed_prefix, 1); reveal_with_fuel(hdr_typed_labels, 1); reveal(labels_of);
+    assert(hdr_typed_prefix(h, k) == hdr_typed_prefix(h, k - 1) + hdr_typed_entry(h, k));
+    assert(hdr_typed_labels(h, k) == hdr_typed_labels(h, k - 1) + hdr_typed_label(h, k));
+    lemma_vv_pairs_push(old, (key, val));
+    assert(hdr_typed_entry(h, k) =~= seq![(CV::Int(k), hdr_typed_val(h, k))]);
+    assert(vv_pairs(old.push((key, val))) =~= hdr_typed_prefix(h, k));
+    assert(labels_of(old.push((key, val))) =~= hdr_typed_labels(h, k));
+}
+pub proof fn lemma_hdr_skip(h: Header, k: int, old: Seq<(Value, Value)>)
+    requires
+        1 <= k <= 7,
+        vv_pairs(old) == hdr_typed_prefix(h, k - 1),
+        labels_of(old) == hdr_typed_labels(h, k - 1),
+        !typed_present(h, Label::Int(k as i64)),
+    ensures
+        vv_pairs(old) == hdr_typed_prefix(h, k),
+        labels_of(old) == hdr_typed_labels(h, k),
+{
+    reveal_with_fuel(hdr_typed_prefix, 1); reveal_with_fuel(hdr_typed_labels, 1);
+    assert(hdr_typed_prefix(h, k) == hdr_typed_prefix(h, k - 1) + hdr_typed_entry(h, k));
+    assert(hdr_typed_labels(h, k) == hdr_typed_labels(h, k - 1) + hdr_typed_label(h, k));
+    assert(hdr_typed_entry(h, k) =~= Seq::<(CV, CV)>::empty());
+    assert(hdr_typed_prefix(h, k) =~= hdr_typed_prefix(h, k - 1));
+    assert(hdr_typed_labels(h, k) =~= hdr_typed_labels(h, k - 1));
+}
+pub proof fn lemma_typed_labels_some(h: Header, k: int, i: int)
+    requires 0 <= k <= 7, 0 <= i < hdr_typed_labels(h, k).len(),
+    ensures hdr_typed_labels(h, k)[i] is Some,
+    decreases k
+{
+    reveal_with_fuel(hdr_typed_labels, 1);
+    if k > 0 {
+        let p = hdr_typed_labels(h, k - 1);
+        if i < p.len() { lemma_typed_labels_some(h, k - 1, i); }
+    }
+}
+pub proof fn lemma_hdr_start(h: Header)
+    ensures vv_pairs(Seq::<(Value, Value)>::empty()) == hdr_typed_prefix(h, 0), labels_of(Seq::<(Value, Value)>::empty()) == hdr_typed_labels(h, 0),
+{
+    reveal_with_fuel(hdr_typed_prefix, 1); reveal_with_fuel(hdr_typed_labels, 1); reveal(labels_of); lemma_vv_pairs_empty();
+    assert(labels_of(Seq::<(Value, Value)>::empty()) =~= hdr_typed_labels(h, 0));
+}
+pub proof fn lemma_labels_of_index(m: Seq<(Value, Value)>, i: int)
+    requires 0 <= i < m.len(),
+    ensures labels_of(m).len() == m.len(), labels_of(m)[i] == label_of(m[i].0),
+{ reveal(labels_of); }
+pub proof fn lemma_rest_entries_push(r: Seq<(Label, Value)>, n: int)
+    requires 0 <= n < r.len(),
+    ensures rest_entries(r.subrange(0, n + 1)) == rest_entries(r.subrange(0, n)).push((label_cv(r[n].0), vv(r[n].1))),
+            rest_entries(r.subrange(0, 0)) == Seq::<(CV, CV)>::empty(),
+{
+    reveal(rest_entries);
+    assert(rest_entries(r.subrange(0, n + 1)) =~= rest_entries(r.subrange(0, n)).push((label_cv(r[n].0), vv(r[n].1))));
+    assert(rest_entries(r.subrange(0, 0)) =~= Seq::<(CV, CV)>::empty());
+}
+pub proof fn lemma_rest_entries_empty(r: Seq<(Label, Value)>)
+    ensures rest_entries(r.subrange(0, 0)) == Seq::<(CV, CV)>::empty(), r.subrange(0, r.len() as int) == r,
+{ reveal(rest_entries); assert(rest_entries(r.subrange(0, 0)) =~= Seq::<(CV, CV)>::empty()); assert(r.subrange(0, r.len() as int) =~= r); }
+pub proof fn lemma_crit_cv(c: Seq<RegisteredLabel<iana::HeaderParameter>>, v: Value)
+    requires v is Array, arr_of(v).len() == c.len(), forall |i: int| 0 <= i < c.len() ==> vv(#[trigger] arr_of(v)[i]) == reg_cv(c[i]),
+    ensures vv(v) == crit_cv(c),
+{ lemma_vv_value_array(v); assert(vv_seq(arr_of(v)) =~= crit_cv(c)->Array_0); }
+pub proof fn lemma_csigs_cv(h: Header, v: Value)
+    requires h.counter_signatures@.len() != 1, v is Array, arr_of(v).len() == h.counter_signatures@.len(),
+        forall |i: int| 0 <= i < arr_of(v).len() ==> vv(#[trigger] arr_of(v)[i]) == sig_cv(h.counter_signatures@[i]),
+    ensures vv(v) == csigs_cv(h),
+{ lemma_vv_value_array(v); assert(vv_seq(arr_of(v)) =~= csigs_cv(h)->Array_0); }
+pub open spec fn hdr_encodable(h: Header) -> bool
+    decreases h
+{
+    rest_labels_ok(h) && (forall |i: int| 0 <= i < h.counter_signatures@.len() ==> sig_encodable(#[trigger] h.counter_signatures@[i]))
+}
+pub open spec fn sig_encodable(s: CoseSignature) -> bool
+    decreases s
+{ prot_encodable(s.protected) && hdr_encodable(s.unprotected) }
+pub open spec fn prot_encodable(p: ProtectedHeader) -> bool
+    decreases p
+{ p.original_data is Some || hdr_is_empty(p.header) || hdr_encodable(p.header) }
+»
 
 exec const ALG: Label ensures ALG == Label::Int(1) { Label::Int(iana::HeaderParameter::Alg as i64) }
 exec const CRIT: Label ensures CRIT == Label::Int(2) { Label::Int(iana::HeaderParameter::Crit as i64) }
@@ -107,7 +293,7 @@ exec const PARTIAL_IV: Label ensures PARTIAL_IV == Label::Int(6) { Label::Int(ia
 exec const COUNTER_SIG: Label ensures COUNTER_SIG == Label::Int(7) { Label::Int(iana::HeaderParameter::CounterSignature as i64) }«
 
 use crate::vprelude::*;
-use crate::common::{parse_all, label_of, reg_of, regp_of, nonempty_bytes, lemma_label_obeys_cmp, axiom_derived_clone_label};
+use crate::common::{label_cv, reg_cv, regp_cv, parse_all, label_of, reg_of, regp_of, nonempty_bytes, lemma_label_obeys_cmp, axiom_derived_clone_label};
 
 pub open spec fn crit_ok(v: Value) -> bool {
     v matches Value::Array(a) && a@.len() > 0
@@ -378,57 +564,146 @@ impl AsCborValue for Header {«
     open spec fn dec_rel(value: Value, r: Result<Self>) -> bool {
         (r is Ok <==> hdr_ok(value, 0))
         && (r matches Ok(h) ==> (value matches Value::Map(mv) && h.rest@ == rest_of(mv@)))
+    }
+    open spec fn enc_rel(self, r: Result<Value>) -> bool {
+        (r is Ok <==> hdr_encodable(self)) && (r matches Ok(v) ==> vv(v) == hdr_cv(self))
     }»
     fn from_cbor_value(value: Value) -> Result<Self> {
         Self::from_cbor_value_nested(value, 0)
     }
 
-    fn to_cbor_value(self) -> Result<Value> { let mut self_ = self;
-        let mut map = Vec::<(Value, Value)>::new();
+    fn to_cbor_value(self) -> Result<Value> { let mut self_ = self;«
+        let ghost h0 = self_;
+        broadcast use axiom_question_mark_uses_from;
+        broadcast use crate::util::axiom_iter_enc_ok_vec;
+        broadcast use crate::util::axiom_iter_enc_err_vec;»
+        let mut map = Vec::<(Value, Value)>::new();«
+        let ghost m0 = map@;
+        proof { lemma_hdr_start(h0); assert(m0 =~= Seq::<(Value, Value)>::empty()); }»
         if let Some(alg) = self_.alg {
-            map.push((ALG.to_cbor_value()?, alg.to_cbor_value()?));
-        }
+            map.push((ALG.to_cbor_value()?, alg.to_cbor_value()?));«
+            proof { lemma_hdr_step(h0, 1, m0, map@.last().0, map@.last().1); }»
+        }«
+        let ghost m1 = map@;
+        proof { if !typed_present(h0, Label::Int(1)) { lemma_hdr_skip(h0, 1, m0); } }»
         if !self_.crit.is_empty() {
-            map.push((CRIT.to_cbor_value()?, to_cbor_array(self_.crit)?));
-        }
+            map.push((CRIT.to_cbor_value()?, to_cbor_array(self_.crit)?));«
+            proof {
+                lemma_crit_cv(h0.crit@, map@.last().1);
+                lemma_hdr_step(h0, 2, m1, map@.last().0, map@.last().1);
+            }»
+        }«
+        let ghost m2 = map@;
+        proof { if !typed_present(h0, Label::Int(2)) { lemma_hdr_skip(h0, 2, m1); } }»
         if let Some(content_type) = self_.content_type {
-            map.push((CONTENT_TYPE.to_cbor_value()?, content_type.to_cbor_value()?));
-        }
+            map.push((CONTENT_TYPE.to_cbor_value()?, content_type.to_cbor_value()?));«
+            proof { lemma_hdr_step(h0, 3, m2, map@.last().0, map@.last().1); }»
+        }«
+        let ghost m3 = map@;
+        proof { if !typed_present(h0, Label::Int(3)) { lemma_hdr_skip(h0, 3, m2); } }»
         if !self_.key_id.is_empty() {
-            map.push((KID.to_cbor_value()?, Value::Bytes(self_.key_id)));
-        }
+            map.push((KID.to_cbor_value()?, Value::Bytes(self_.key_id)));«
+            proof { lemma_hdr_step(h0, 4, m3, map@.last().0, map@.last().1); }»
+        }«
+        let ghost m4 = map@;
+        proof { if !typed_present(h0, Label::Int(4)) { lemma_hdr_skip(h0, 4, m3); } }»
         if !self_.iv.is_empty() {
-            map.push((IV.to_cbor_value()?, Value::Bytes(self_.iv)));
-        }
+            map.push((IV.to_cbor_value()?, Value::Bytes(self_.iv)));«
+            proof { lemma_hdr_step(h0, 5, m4, map@.last().0, map@.last().1); }»
+        }«
+        let ghost m5 = map@;
+        proof { if !typed_present(h0, Label::Int(5)) { lemma_hdr_skip(h0, 5, m4); } }»
         if !self_.partial_iv.is_empty() {
-            map.push((PARTIAL_IV.to_cbor_value()?, Value::Bytes(self_.partial_iv)));
-        }
+            map.push((PARTIAL_IV.to_cbor_value()?, Value::Bytes(self_.partial_iv)));«
+            proof { lemma_hdr_step(h0, 6, m5, map@.last().0, map@.last().1); }»
+        }«
+        let ghost m6 = map@;
+        proof { if !typed_present(h0, Label::Int(6)) { lemma_hdr_skip(h0, 6, m5); } }»
         if !self_.counter_signatures.is_empty() {
             if self_.counter_signatures.len() == 1 {
                 // A single counter signature is encoded differently.
                 map.push((
                     COUNTER_SIG.to_cbor_value()?,
                     crate::vstubs::sig_to_cbor_value__stub(self_.counter_signatures.remove(0))?,
-                ));
+                ));«
+                proof { lemma_hdr_step(h0, 7, m6, map@.last().0, map@.last().1); }»
             } else {
                 map.push((
                     COUNTER_SIG.to_cbor_value()?,
                     crate::vstubs::sigs_to_cbor_array__stub(self_.counter_signatures)?,
-                ));
+                ));«
+                proof {
+                    lemma_csigs_cv(h0, map@.last().1);
+                    lemma_hdr_step(h0, 7, m6, map@.last().0, map@.last().1);
+                }»
             }
-        }
+        }«
+        let ghost tmap = map@;
+        proof {
+            if !typed_present(h0, Label::Int(7)) { lemma_hdr_skip(h0, 7, m6); }
+            assert(forall |i: int| 0 <= i < h0.counter_signatures@.len() ==> sig_encodable(#[trigger] h0.counter_signatures@[i]));
+        }»
         // Labels already emitted for the named fields also count as seen.
-        let mut seen = BTreeSet::new();
-        for (label, _value) in map.iter() {
+        let mut seen = BTreeSet::new();«
+        proof { lemma_label_obeys_cmp(); }»
+        for (label, _value) in« it0:» map.iter()«
+            invariant
+                h0 == self, map@ == tmap,
+                labels_of(tmap) == hdr_typed_labels(h0, 7),
+                vstd::laws_cmp::obeys_cmp::<Label>(),
+                forall |x: Label| seen@.contains(x) <==> exists |i: int| 0 <= i < it0.index@ && #[trigger] labels_of(tmap)[i] == Some(x),» {«
+            broadcast use axiom_question_mark_uses_from;
+            broadcast use vstd::std_specs::btree::group_btree_axioms;
+            proof {
+                assert(*label == tmap[it0.index@].0);
+                lemma_labels_of_index(tmap, it0.index@);
+                lemma_typed_labels_some(h0, 7, it0.index@);
+            }»
             seen.insert(Label::from_cbor_value(label.clone())?);
+        }«
+        proof {
+            assert(labels_of(tmap).len() == tmap.len()) by { reveal(labels_of); }
+            assert forall |x: Label| seen@.contains(x) <==> typed_present(h0, x) by { lemma_typed_labels(h0, x); }
         }
-        for (label, value) in self_.rest.into_iter() {
-            if seen.contains(&label) {
+        let ghost rs = self_.rest@;
+        proof { lemma_rest_entries_empty(rs); assert(vv_pairs(map@) =~= hdr_typed_prefix(h0, 7) + rest_entries(rs.subrange(0, 0))); }»
+        for (label, value) in« it:» self_.rest.into_iter()«
+            invariant
+                h0 == self, rs == h0.rest@, rs == self_.rest@,
+                0 <= it.index@ <= rs.len(),
+                vstd::laws_cmp::obeys_cmp::<Label>(),
+                vv_pairs(map@) == hdr_typed_prefix(h0, 7) + rest_entries(rs.subrange(0, it.index@)),
+                forall |x: Label| seen@.contains(x) <==> (typed_present(h0, x) || exists |i: int| 0 <= i < it.index@ && (#[trigger] rs[i]).0 == x),
+                forall |i: int, j: int| 0 <= i < j < it.index@ ==> (#[trigger] rs[i]).0 != (#[trigger] rs[j]).0,
+                forall |i: int| 0 <= i < it.index@ ==> !typed_present(h0, (#[trigger] rs[i]).0),
+                forall |i: int| 0 <= i < h0.counter_signatures@.len() ==> sig_encodable(#[trigger] h0.counter_signatures@[i]),» {«
+            broadcast use axiom_question_mark_uses_from;
+            broadcast use vstd::std_specs::btree::group_btree_axioms;
+            broadcast use axiom_derived_clone_label;
+            let ghost n = it.index@;
+            let ghost map_pre = map@;
+            proof { assert(label == rs[n].0 && value == rs[n].1); }»
+            if seen.contains(&label) {«
+                proof {
+                    if typed_present(h0, label) { assert(!rest_labels_ok(h0)); }
+                    else { let i = choose |i: int| 0 <= i < n && (#[trigger] rs[i]).0 == label; assert(rs[i].0 == rs[n].0); assert(!rest_labels_ok(h0)); }
+                }»
                 return Err(CoseError::DuplicateMapKey);
             }
             seen.insert(label.clone());
-            map.push((label.to_cbor_value()?, value));
-        }
+            map.push((label.to_cbor_value()?, value));«
+            proof {
+                lemma_vv_pairs_push(map_pre, map@.last());
+                lemma_rest_entries_push(rs, n);
+                assert(vv_pairs(map@) =~= hdr_typed_prefix(h0, 7) + rest_entries(rs.subrange(0, n + 1)));
+            }»
+        }«
+        proof {
+            lemma_rest_entries_empty(rs);
+            assert(rest_labels_ok(h0));
+            reveal(hdr_typed_prefix);
+            lemma_vv_map(map);
+        }»
         Ok(Value::Map(map))
     }
 }
@@ -591,8 +866,8 @@ impl ProtectedHeader {
     /// way.
     #[inline]
     pub fn cbor_bstr(self) ->« (r:» Result<Value>«)
-        ensures r matches Ok(v) ==> (v matches Value::Bytes(d) && slot_ok(self, d@)),
-                self.original_data is Some ==> r is Ok,» {«
+        ensures r is Ok <==> prot_encodable(self),
+                r matches Ok(v) ==> (v matches Value::Bytes(d) && d@ == prot_slot(self)),» {«
         broadcast use crate::vprelude::axiom_question_mark_uses_from;»
         Ok(Value::Bytes(
             if let Some(original_data) = self.original_data {
@@ -614,7 +889,12 @@ impl ProtectedHeader {
 
 impl crate::CborSerializable for ProtectedHeader {}
 
-impl AsCborValue for ProtectedHeader {
+impl AsCborValue for ProtectedHeader {«
+    open spec fn dec_rel(value: Value, r: Result<Self>) -> bool {
+        (r is Ok <==> hdr_ok(value, 0))
+        && (r matches Ok(p) ==> (p.original_data is None && Header::dec_rel(value, Ok::<Header, CoseError>(p.header))))
+    }
+    open spec fn enc_rel(self, r: Result<Value>) -> bool { self.header.enc_rel(r) }»
     fn from_cbor_value(value: Value) -> Result<Self> {
         Ok(ProtectedHeader {
             original_data: None,
